@@ -105,3 +105,44 @@ package minersc
 //@   loop 2 invariant -1 <= s && s <= $idx && e == len(newNodes)
 //@   loop 2 invariant s >= 0 ==> newNodes[s].TotalStaked == stake
 //@   loop 2 invariant forall k in 0..(s >= 0 ? s : $idx + 1) :: newNodes[k].TotalStaked != stake
+
+// The callers of reduce. A final miner selection always goes through reduce, with the limits and the
+// required share of previous members that are in force NOW (the global node's max_n / x_percent), the
+// previous magic block's random seed and its miner pool; too few candidates are rejected.
+//   $reduceCalls   specification-only counter of the selections made through SimpleNodes.reduce
+//@ ghost $reduceCalls Int accumulator
+//@ func (*GlobalNode).hasPrevDKGMiner
+//@   trusted
+//@   modifies nothing
+//@ func (*DKGMinerNodes).reduceNodes
+//@   prop C39
+//@   requires dkgmn != nil && gn != nil && balances != nil
+//@   opaque reduce
+//@   at-call reduce ghost $reduceCalls += 1
+//@   at-call reduce assert[limits-in-force-now] $arg1 == gn.MaxN && $arg2 == gn.XPercent
+//@   at-call reduce assert[seed-and-pool-of-the-previous-magic-block] pmb != nil ==> $arg3 == pmb.RoundRandomSeed
+//@   ensures[final-selection-always-reduces] final && err == nil ==> $reduceCalls == old($reduceCalls) + 1
+//@   ensures[too-few-candidates-rejected] err == nil ==> old(len(dkgmn.SimpleNodes)) >= old(dkgmn.MinN)
+//@   modifies everything
+
+// The sharder list of the next magic block always goes through reduce as well, with the sharder limit
+// and the share of previous members in force now and the previous magic block's seed.
+//@ func (*MinerNodes).FindNodeById
+//@   trusted
+//@   modifies nothing
+//@ func hasPrevSharderInList
+//@   trusted
+//@   modifies nothing
+//@ func rankedPrevSharders
+//@   trusted
+//@   modifies nothing
+//@ func (*MinerSmartContract).reduceShardersList
+//@   prop C39
+//@   requires keep != nil && all != nil && gn != nil && balances != nil
+//@   opaque reduce
+//@   at-call reduce ghost $reduceCalls += 1
+//@   at-call reduce assert[limits-in-force-now] $arg1 == gn.MaxS && $arg2 == gn.XPercent
+//@   at-call reduce assert[seed-of-the-previous-magic-block] pmb != nil ==> $arg3 == pmb.RoundRandomSeed
+//@   at-call reduce assert[enough-sharders] len($arg0) >= gn.MinS
+//@   ensures[selection-always-reduces] err == nil ==> $reduceCalls == old($reduceCalls) + 1
+//@   modifies everything
